@@ -158,7 +158,7 @@ fn with_presence(base: &Map<String, Value>, bits: u8) -> Map<String, Value> {
     e.remove("signatures");
     e.remove("hashes");
     if bits & 1 != 0 {
-        e.insert("unsigned".into(), json!({"age": 5, "prev_content": {"k": "v"}, "redacted_because": {"type": "m.room.redaction"}}));
+        e.insert("unsigned".into(), json!({"age": 5, "age_ts": 1_700_000_000_000i64, "replaces_state": "$old:sender.org", "prev_content": {"k": "v"}, "redacted_because": {"type": "m.room.redaction"}}));
     }
     if bits & 2 != 0 {
         e.insert("signatures".into(), json!({"x.org": {"ed25519:1": "c2ln"}}));
